@@ -12,6 +12,19 @@ import (
 	"verif/engine/ev"
 )
 
+// safeExec turns a panic of the code under test (the harness's own assertion failures go through ev.Harness, which
+// exits) into a failure of the history that provoked it: on the unchanged tree no explored history panics, so a panic
+// is something a change introduced, and every property presupposes that the component keeps running.
+func safeExec[E any](exec func([]E) (string, string, *Failure), h []E) (canon, outcome string, fail *Failure) {
+	defer func() {
+		if p := recover(); p != nil {
+			site, stack := ev.PanicSite()
+			fail = &Failure{Sig: "panic-in-code-under-test:" + site, What: fmt.Sprintf("the history makes the code under test panic: %v\n%s", p, stack)}
+		}
+	}()
+	return exec(h)
+}
+
 func memLimitGB() int {
 	n := 24
 	if s := os.Getenv("VERIF_MEM_GB"); s != "" {
@@ -120,7 +133,7 @@ func Explore[E any](r *ev.Run, sc Scenario[E]) Stats {
 						j.canon = "\x00skipped"
 						continue
 					}
-					j.canon, j.outcome, j.fail = sc.Exec(j.h)
+					j.canon, j.outcome, j.fail = safeExec(sc.Exec, j.h)
 				}
 			}()
 		}
